@@ -320,6 +320,36 @@ fn(ME, "ring_hash_twice", kind="function", args={"lb": Ref(ConsistentHash), "key
    ensures=[("ring-position-independent-of-hash-seed", same_in_both)], **_env_task([lb_mod]))
 
 
+from happysimulator.components.datastore.sharded_store import RangeSharding  # noqa: E402
+
+cls(RangeSharding, fields={"_boundaries": Seq(Str)})
+
+
+def range_shard_twice(sh, key, num_shards):
+    enter_env(1)
+    a = sh.get_shard(key, num_shards)
+    enter_env(2)
+    b = sh.get_shard(key, num_shards)
+    return a, b
+
+
+def _range_env():
+    d = _env_task([shard_mod])
+    base = d["setup"]
+
+    def setup(s):
+        s.sh._boundaries = [fresh(Str, "boundary0"), fresh(Str, "boundary1"), fresh(Str, "boundary2")]
+        return base(s)
+    d["setup"] = setup
+    return d
+
+
+# (explicit boundaries, three of them: the alphabetical fallback indexes into the key string - not modelled)
+fn(ME, "range_shard_twice", kind="function", label="three-boundaries", args={"sh": Ref(RangeSharding), "key": Str, "num_shards": Int},
+   ensures=[("shard-independent-of-hash-seed", same_in_both),
+            ("first-boundary-above-the-key", lambda s: (0 <= s.result[0]) & (s.result[0] <= 3))], **_range_env())
+
+
 def _ip_hash_env():
     d = _env_task([lb_mod])
     base = d["setup"]
@@ -440,6 +470,77 @@ def _same_victim(s):
 fn(ME, "random_evict_twice", kind="function", args={"pol": Ref(RandomEviction)}, **_evict_env(), ensures=[
     ("victim-independent-of-hash-seed", _same_victim),
     ("none-only-when-empty", lambda s: iff(s.result[0] is None, slen(s.old(s.pol)._keys) == 0))])
+
+# TTLEviction built WITHOUT clock_func: environment symbol `wall` (time.time() returns an arbitrary non-decreasing
+# reading, unrelated between the two environments).  KNOWN DEFECT on the pinned tree (default clock is time.time; no
+# small safe repair: the policy has no access to the simulation clock).
+from happysimulator.components.datastore.eviction_policies import TTLEviction  # noqa: E402
+
+cls(TTLEviction, fields={"_ttl": Real, "_clock_func": Fn(Real, "clock"), "_insert_times": Map(Str, Real, ordered=True)})
+
+
+class _WallClock:
+    """stand-in for the `time` module: every read is a fresh real >= the previous read of this environment"""
+
+    def __init__(self, k):
+        self.k, self.last = k, None
+
+    def time(self):
+        v = fresh(Real, f"wall{self.k}")
+        if self.last is not None:
+            assume(v >= self.last)
+        self.last = v
+        return v
+
+
+def ttl_default_clock_evict_twice(ttl):
+    """model: p = TTLEviction(ttl); insert a, b, then a again; evict - what is the victim?"""
+    out = []
+    for k in (1, 2):
+        evict_mod.__dict__["time"] = _WallClock(k)
+        p = TTLEviction(ttl)
+        p.on_insert("a")
+        p.on_insert("b")
+        p.on_insert("a")
+        out.append(p.evict())
+    return out
+
+
+def _wall_env():
+    saved = []
+
+    def setup(s):
+        saved.append(evict_mod.__dict__.get("time"))
+        return []
+
+    def teardown(s):
+        while saved:
+            evict_mod.__dict__["time"] = saved.pop()
+    return {"setup": setup, "teardown": teardown}
+
+
+fn(ME, "ttl_default_clock_evict_twice", kind="function", args={"ttl": Real}, requires=[lambda s: s.ttl > 0], **_wall_env(),
+   ensures=[("victim-independent-of-wall-clock", lambda s: s.result[0] == s.result[1])])
+
+
+def ttl_model_clock_evict_twice(ttl, t0, t1, t2, t3):
+    """the same scenario with clock_func given by the model (e.g. the simulation clock): its four readings t0..t3 are
+    the same in both environments, whatever the wall clock does"""
+    out = []
+    for k in (1, 2):
+        evict_mod.__dict__["time"] = _WallClock(k)
+        readings = iter([t0, t1, t2, t3])
+        p = TTLEviction(ttl, lambda: next(readings))
+        p.on_insert("a")
+        p.on_insert("b")
+        p.on_insert("a")
+        out.append(p.evict())
+    return out
+
+
+fn(ME, "ttl_model_clock_evict_twice", kind="function", args={"ttl": Real, "t0": Real, "t1": Real, "t2": Real, "t3": Real},
+   requires=[lambda s: (s.ttl > 0) & (s.t0 <= s.t1) & (s.t1 <= s.t2) & (s.t2 <= s.t3)], **_wall_env(),
+   ensures=[("victim-independent-of-wall-clock", lambda s: s.result[0] == s.result[1])])
 
 # the lists of dirty keys handed out by the write-back machinery (the order in which write-backs are issued)
 import happysimulator.components.datastore.write_policies as wpol_mod  # noqa: E402
@@ -704,6 +805,34 @@ ctor(Event, args=_EV_ARGS, **_CENV, ensures=[
     ("delivery-fields-are-the-arguments", lambda s: (ns(s.self.time) == ns(s.time)) & (s.self.event_type == s.event_type)
      & same(s.self.target, s.target) & Not(s.self._cancelled) & Not(s.self.daemon))])
 
+# ---- lemmas: from the per-function contracts to "same delivery order" (induction steps; the induction over
+# deliveries itself is composed on paper)
+
+
+def _same_heap_order():
+    # two runs; events a, b (run 1) correspond to a', b' (run 2): equal timestamps (times are functions of the model:
+    # no environment read reaches a time - scan) and equal SIGN of the index difference (part B).  Then the heap key
+    # order (time, index) of the pair is the same in both runs, so both heaps pop corresponding events.
+    ta, tb = fresh(Int, "ta"), fresh(Int, "tb")
+    ia, ib, ja, jb = fresh(Int, "ia"), fresh(Int, "ib"), fresh(Int, "ja"), fresh(Int, "jb")
+    assume(_sign_eq(ia, ib, ja, jb))
+    lt1 = (ta < tb) | ((ta == tb) & (ia < ib))
+    lt2 = (ta < tb) | ((ta == tb) & (ja < jb))
+    oblige("same-times-and-same-index-order-give-the-same-heap-order", iff(lt1, lt2))
+    oblige("and-the-same-ties", iff((ta == tb) & (ia == ib), (ta == tb) & (ja == jb)))
+
+
+def _epoch_shift():
+    # _next_sort_index hands out consecutive values of ONE counter (contracts above): within one counter epoch the
+    # k-th and the m-th index are c + k and c + m, whatever the start value c is in the two environments
+    c1, c2, k, m = fresh(Int, "c1"), fresh(Int, "c2"), fresh(Int, "k"), fresh(Int, "m")
+    oblige("index-order-within-an-epoch-is-creation-order-in-every-environment", _sign_eq(c1 + k, c1 + m, c2 + k, c2 + m))
+    oblige("creation-order", implies(k < m, (c1 + k < c1 + m) & (c2 + k < c2 + m)))
+
+
+lemma("same-index-order-gives-same-delivery-order", _same_heap_order)
+lemma("index-order-is-invariant-under-the-counter-start", _epoch_shift)
+
 # ================================================================================ C. library-wide reads-frame scan
 # A plain AST pass (no SMT; evidence level "other").  SOURCES (reads of the environment):
 #   hash         builtin hash(x)                         id       builtin id(x)
@@ -714,6 +843,7 @@ ctor(Event, args=_EV_ARGS, **_CENV, ensures=[
 #                min,max,sorted WITH key=): the enumeration order of a set of str (PYTHONHASHSEED) or of objects
 #                hashed by address (id) is not a function of the model
 #   thread-schedule   ThreadPoolExecutor / ProcessPoolExecutor / as_completed
+#   unseeded-rng      random.Random() / numpy default_rng() / RandomState() called without any argument
 # Set-typed expressions are inferred from annotations (`set[...]`, `dict[..., set[...]]`, parameters, returns,
 # properties) and from initialisers (`set()`, `{..}`, set comprehension, `defaultdict(set)`); `self.X` is resolved in the
 # class (and its library base classes), other receivers by attribute name across the library (over-approximation).
@@ -728,7 +858,7 @@ import os as _os  # noqa: E402
 SCAN_PACKAGES = ("core", "components", "load", "distributions", "sketching", "faults", "parallel")
 _WALL = {"time", "monotonic", "perf_counter", "time_ns", "monotonic_ns", "perf_counter_ns", "process_time", "process_time_ns"}
 _ORDER_FREE = {"any", "all", "set", "frozenset", "sum", "len", "min", "max", "sorted"}
-_ENV_MODULES = ("time", "uuid", "os", "secrets", "datetime", "random", "concurrent.futures")
+_ENV_MODULES = ("time", "uuid", "os", "secrets", "datetime", "random", "concurrent.futures", "numpy", "numpy.random")
 
 
 def _ann_kind(a):
@@ -934,9 +1064,21 @@ class _ModuleScan(_ast.NodeVisitor):
         if isinstance(n.ctx, _ast.Load):
             self._source_site(n)
 
+    def _is_rng_ctor(self, f):
+        if isinstance(f, _ast.Name):
+            return self.alias.get(f.id) in (("random", "Random"), ("numpy.random", "default_rng"), ("numpy.random", "RandomState"))
+        if isinstance(f, _ast.Attribute) and isinstance(f.value, _ast.Name):
+            return (self.alias.get(f.value.id) == ("random", None) and f.attr == "Random") or \
+                (self.alias.get(f.value.id) in (("numpy.random", None), ("numpy", "random")) and f.attr in ("default_rng", "RandomState"))
+        if isinstance(f, _ast.Attribute) and isinstance(f.value, _ast.Attribute) and isinstance(f.value.value, _ast.Name):
+            return self.alias.get(f.value.value.id) == ("numpy", None) and f.value.attr == "random" and f.attr in ("default_rng", "RandomState")
+        return False
+
     def visit_Call(self, n):
         f = n.func
         keyed = any(kw.arg == "key" for kw in n.keywords)
+        if not n.args and not n.keywords and self._is_rng_ctor(f):
+            self.site("unseeded-rng", n, "generator seeded from OS entropy")
         if isinstance(f, _ast.Name):
             if f.id in ("hash", "id") and len(n.args) == 1 and not n.keywords:
                 self.site(f.id, n)
@@ -1110,6 +1252,11 @@ SCAN_CLASSIFICATION = {
     "parallel/coordinator.py:WindowedCoordinator._run_partition_window:wallclock": ("ok", _WALL_ONLY),
     "parallel/simulation.py:ParallelSimulation._run_independent:wallclock": ("ok", _WALL_ONLY),
     "parallel/simulation.py:ParallelSimulation._run_independent.run_one:wallclock": ("ok", _WALL_ONLY),
+    # ---- generators seeded from OS entropy
+    "components/behavior/social_network.py:SocialGraph.random_erdos_renyi:unseeded-rng": (
+        "ok", "fallback of the optional `rng` parameter: a model that fixes its seeds passes a seeded generator (configuration assumption)"),
+    "components/behavior/social_network.py:SocialGraph.small_world:unseeded-rng": (
+        "ok", "fallback of the optional `rng` parameter: a model that fixes its seeds passes a seeded generator (configuration assumption)"),
     # ---- threads / processes
     "parallel/coordinator.py:WindowedCoordinator.run:thread-schedule": ("ok", _THREADS),
     "parallel/simulation.py:ParallelSimulation._run_independent:thread-schedule": ("ok", _THREADS),
@@ -1157,6 +1304,9 @@ PROPERTY["assumptions"] += [
     "the set value only; random.Random.choice(seq) in a given generator state returns seq[randbelow(len(seq))] (spec-local "
     "models _env_list/_env_sorted/_model_choice patched into the datastore modules)",
     "the user's key extractor of IPHash is a deterministic function of the request (it is part of the model)",
+    "configuration: 'same seeds' means every component that accepts a seed / rng is given one (seed=None, rng=None seed from OS "
+    "entropy and are outside the statement's hypothesis); draws from random / numpy.random / a component's own seeded "
+    "random.Random count as functions of the seeds",
     "reads-frame scan: the classification reasons in SCAN_CLASSIFICATION are reviewed by hand, not machine-checked; sets reaching "
     "a function through un-annotated parameters are not tracked; dynamic dispatch is not resolved (sources are recognised "
     "syntactically at the read)",
